@@ -1,6 +1,7 @@
 package ri
 
 import (
+	"math/big"
 	"math"
 	"strings"
 )
@@ -59,18 +60,37 @@ func installBuiltins(in *Interp, p *Pkg) {
 			for _, x := range a[1:] {
 				acc = ff(acc, fl(x))
 			}
-			// "Returns int if all args are ints; otherwise float" does not say WHEN the
-			// ints of a mixed call become floats; it matters only when a leading run of
-			// ints overflows (int overflow itself is undocumented): unspecified then.
-			cur := a[0]
-			for _, x := range a[1:] {
-				if cur.K == KInt && x.K == KInt {
-					cur = Int(fi(cur.I, x.I))
-				} else {
-					cur = Float(ff(fl(cur), fl(x)))
-				}
+			// "Returns the sum of all arguments ... int if all args are ints; otherwise float" does not say WHEN
+			// the ints of a mixed call become floats.  Two readings: every argument is promoted first (acc), or
+			// a leading run of ints is combined EXACTLY and promoted when the first float arrives.  Where they
+			// agree the result is specified -- in particular int wraparound has no place in a call that contains
+			// a float; where they differ (rounding order only) the result is unspecified.
+			exact := new(big.Int).SetInt64(a[0].I)
+			var curF float64
+			inInts := a[0].K == KInt
+			if !inInts {
+				curF = a[0].F
 			}
-			if cur.String() != Float(acc).String() {
+			for _, x := range a[1:] {
+				if inInts && x.K == KInt {
+					y := new(big.Int).SetInt64(x.I)
+					switch name {
+					case "+":
+						exact.Add(exact, y)
+					case "-":
+						exact.Sub(exact, y)
+					default:
+						exact.Mul(exact, y)
+					}
+					continue
+				}
+				if inInts {
+					curF, _ = new(big.Float).SetInt(exact).Float64()
+					inInts = false
+				}
+				curF = ff(curF, fl(x))
+			}
+			if Float(curF).String() != Float(acc).String() {
 				return nil, &Err{Cond: "<unspecified>"}
 			}
 			return Float(acc), nil
